@@ -261,6 +261,46 @@ func init() {
 				}
 				wSet(wGet(p, "spec"), "free", wS("!!int", "1"))
 			}
+			if typed && r.Intn(4) == 0 {
+				// explicit nulls at LIST-typed fields of the target that the patch does not mention: they are part of
+				// "everything the patch does not mention"
+				addNull := func(parent interface{}, pparent interface{}, key string) {
+					if parent == nil || wGet(parent, key) != nil {
+						return
+					}
+					if pparent != nil && wGet(pparent, key) != nil {
+						return
+					}
+					wSet(parent, key, wS("!!null", "null"))
+				}
+				tmd, pmd := wGet(t, "metadata"), wGet(p, "metadata")
+				if r.Intn(2) == 0 {
+					addNull(tmd, pmd, "finalizers")
+				}
+				tpod := wGet(wGet(wGet(t, "spec"), "template"), "spec")
+				var ppod interface{}
+				if ps := wGet(p, "spec"); ps != nil {
+					if pt := wGet(ps, "template"); pt != nil {
+						ppod = wGet(pt, "spec")
+					}
+				}
+				if tpod != nil {
+					if r.Intn(2) == 0 {
+						addNull(tpod, ppod, "volumes")
+					}
+					if r.Intn(2) == 0 {
+						addNull(tpod, ppod, "tolerations")
+					}
+					if cs, ok := wGet(tpod, "containers").([]interface{}); ok && cs[0] == "q" {
+						for _, c := range cs[2].([]interface{}) {
+							// (the patch addresses containers by name; a container it names may still leave args/env alone)
+							if r.Intn(2) == 0 {
+								addNull(c, nil, pickS(r, []string{"args", "env", "command", "volumeMounts"}))
+							}
+						}
+					}
+				}
+			}
 			cases = append(cases, cs{s, ka[0], ka[1], t, p, typed})
 		}
 		// reference results for the typed kinds, in one child process
